@@ -134,6 +134,24 @@ def run(ctx):
         "ChunkedDataDict.render_to_payload", "PayloadDict.render_pkg", "_build_cp_atom_payload", "optimize_incrementals", "incremental_expansion_license") if P.func_opt(MISC, q)]
     + [(MISC, q, ("param:orig",), "orig= is the documented accumulator; nothing else may be written") for q in ("incremental_expansion", "incremental_chunked")])
     ctx.floor("R6", 8)
+    # ---- R7 only chunks KNOWN to apply to every package are folded into the collapsed global chunk --------------------
+    folds = []
+    for loop in [n for n in A.body_walk(bld.node) if isinstance(n, ast.For)]:
+        for st in loop.body:
+            if isinstance(st, ast.If) and any(isinstance(x, ast.Continue) for x in st.body) and any(isinstance(c, ast.Call) for b_ in st.body for c in ast.walk(b_)):
+                folds.append((loop, st))
+    ctx.require(folds, "_build_cp_atom_payload: the fold-into-global arm (lock flags, continue) not found")
+    for loop, st in folds:
+        negs = [n for n in ast.walk(st.test) if isinstance(n, ast.UnaryOp) and isinstance(n.op, ast.Not)] + \
+               [n for n in ast.walk(st.test) if isinstance(n, ast.Compare) and any(isinstance(o, (ast.NotEq, ast.IsNot, ast.NotIn)) for o in n.ops)]
+        positive = any(isinstance(n, ast.Attribute) and n.attr == "AlwaysTrue" for n in ast.walk(st.test)) and any(
+            (isinstance(n, ast.Constant) and n.value == "is_simple") or (isinstance(n, ast.Attribute) and n.attr == "is_simple") for n in ast.walk(st.test))
+        ctx.check("R7", bld, positive and not negs, "global-fold-positive-test",
+                  "a chunk is folded into the global only when its restriction is positively identified as universal (AlwaysTrue, or a simple cat/pkg atom for the per-key collapse)",
+                  f"the fold-into-global test `{A.unparse(st.test)[:80]}` classifies by exclusion: every restriction that is not explicitly recognised (a category or package "
+                  f"glob such as dev-libs/*) is folded into the collapsed global chunk and its flags apply to packages it does not match", node=st)
+    ctx.floor("R7", 1)
+
 
 MUTANTS = [
     {"name": "splitter-slice-from-zero", "file": "src/pkgcore/ebuild/domain.py", "old": "                yield from tokens[start_idx:idx]", "new": "                yield from tokens[:idx]", "rule": "R2"},
